@@ -19,10 +19,14 @@ def main():
     ctx = common.Ctx(a.prop, a.tier, seed)
     try:
         mod = importlib.import_module(a.prop.lower())
-        ctx.lean.build()
+        exe = getattr(mod, 'DRIVER', f'drv_{a.prop}')
+        targets = getattr(mod, 'LEAN_TARGETS', None) or [f'NasdaqModel.Props.{a.prop}', exe]
+        if os.path.exists(os.path.join(common.LEAN_DIR, 'NasdaqModel', 'Witness', f'{a.prop}.lean')):
+            targets.append(f'NasdaqModel.Witness.{a.prop}')
+        ctx.lean.build(targets)
         if ctx.lean.build_ok:
             ctx.lean.run_audit(a.prop)
-        ctx.driver = common.Driver()
+        ctx.driver = common.Driver(exe)
         common.use_repo()
         if a.replay:
             mod.replay(ctx, a.replay)
